@@ -8,7 +8,7 @@
 # Real code driven here, every piece compiled / imported UNCHANGED from vf.REPO:
 #   dec    harness of props/C20.py: extracted gsm48_decode_mobile_alloc (ASan+UBSan)                 verb ma.decode
 #   glue   gen/hop_chain.py + harness/c/c20_glue_harness.c: extracted render_ma, arfcn2index, l1ctl_tx_dm_est_req_h1
-#          (layer23), l1ctl_rx_dm_est_req + l1ctl_proc_est_req_h1 + handle_dch_est_req (trxcon), l1ctl_rx_dm_est_req
+#          (layer23), l1ctl_rx_dm_est_req + l1ctl_proc_est_req_h1 + handle_dch_est_req + trxcon_phyif_handle_cmd (trxcon), l1ctl_rx_dm_est_req
 #          (firmware), real msgb.c/talloc.c, ASan+UBSan                                               verb glue.run
 #   tc     harness of props/trxcon_part.py: the real trx_if.c                                         verb tc.cmd SETFREQ_H1
 #   trx    harness/py/chain_harness.py: the real FakeTRX of the real Application                      verb chain.trx
@@ -30,7 +30,7 @@ H = 2715648
 
 ASSUMPTIONS = [
     "chain part: theorems compose the models of the decoder (Model/MobileAlloc), trxcon's emitter (Model/TrxconIf), the fake_trx world (Model/World, PyStr) and the hopping code (Model/Hopping) with OsmoVerif.Model.HopChain: a hand model, statement by statement, of the mobile-allocation branch of gsm48_rr_render_ma incl. the 'convert to band_arfcn' loop and arfcn2index (layer23), l1ctl_tx_dm_est_req_h1 (uint8_t n, htons copy loop into ma[64]), trxcon's l1ctl_proc_est_req_h1 (n = 0, n > 64, ntohs copy loop) and handle_dch_est_req (SETFREQ_H1 parameters), the firmware's l1ctl_rx_dm_est_req copy loop; uint16_t values cross the L1CTL socket as two octets (most significant first), so the model does not depend on the host's byte order",
-    "chain part, tie: the CURRENT text of these functions is extracted by name from gsm48_rr.c, gsm322.c, common/l1ctl.c, trxcon/src/l1ctl.c, trxcon_fsm.c and firmware layer1/l23_api.c (three translation units, ASan+UBSan, real msgb.c/talloc.c) and driven with the octets of the real L1CTL message; environment stubbed: struct osmocom_ms / gsm322_cellsel / gsm48_sysinfo / gsm_settings reduced to the members read (array sizes from the tree), gsm_refer_pcs (answers the request's flag), logging sinks, osmo_send_l1 (captures the message), osmo_fsm_inst_dispatch (calls the extracted handle_dch_est_req), the L1 scheduler behind the PHY command, trxcon_phyif_handle_cmd (records the command; that the real one in trxcon_main.c is the plain forwarder to trx_if_handle_phyif_cmd is checked on its text: Gen.HopChain.phyifForwards), firmware mframe/audio/TCH helpers, ntohs of the host's libc in place of the firmware's byteorder.h",
+    "chain part, tie: the CURRENT text of these functions is extracted by name from gsm48_rr.c, gsm322.c, common/l1ctl.c, trxcon/src/l1ctl.c, trxcon_fsm.c and firmware layer1/l23_api.c (three translation units, ASan+UBSan, real msgb.c/talloc.c) and driven with the octets of the real L1CTL message; environment stubbed: struct osmocom_ms / gsm322_cellsel / gsm48_sysinfo / gsm_settings reduced to the members read (array sizes from the tree), gsm_refer_pcs (answers the request's flag), logging sinks, osmo_send_l1 (captures the message), osmo_fsm_inst_dispatch (calls the extracted handle_dch_est_req), the L1 scheduler behind the PHY command, trx_if_handle_phyif_cmd behind the real trxcon_phyif_handle_cmd of trxcon_main.c (records the command, which is then given to the real trx_if.c in the harness of props/trxcon_part.py), firmware mframe/audio/TCH helpers, ntohs of the host's libc in place of the firmware's byteorder.h",
     "chain part, modelled not verified: the callers around the glue (gsm48_rr_activate_channel passes cd->maio, cd->hsn, ma, ma_len unchanged; app_cbch_sniff passes s->hopping, s->hopp_len of the SI4 CBCH Mobile Allocation WITHOUT the PCS conversion), the cell channel description / frequency list / frequency channel sequence branches of gsm48_rr_render_ma, the L1CTL unix socket and the UDP socket between trxcon and fake_trx (a datagram arrives as sent), the l1ctl length prefix framing",
 ]
 
@@ -288,6 +288,17 @@ def make_cases(run, rng, scale):
         for n in (61, 62, 63, 64):
             ca = rng.sample(fam_pool[fam], 64)
             add(ca, sorted(rng.sample(range(64), n)), pcs, "%s/ENOSPC boundary N%d" % (fam, n))
+    # the edges of every ARFCN range of every band family, all selected
+    for fam, pcs in (("P-GSM 900", 0), ("E-GSM 900", 0), ("R-GSM 900", 0), ("DCS 1800", 0), ("PCS 1900", 1), ("GSM 850", 0), ("GSM 450", 0),
+                     ("GSM 480", 0), ("GSM 750", 0)):
+        ca = sorted({a for lo, hi, _, _ in BANDS[fam] for a in (lo, lo + 1, hi - 1, hi)})
+        add(ca, range(len(ca)), pcs, "band edges/" + fam)
+    # the phone's frequency map lacks NEIGHBOURS of the selected channels only (the map is indexed by ARFCN, PCS channels behind 1024)
+    for fam, pcs in (("P-GSM 900", 0), ("DCS 1800", 0), ("PCS 1900", 1), ("PCS 1900", 1)):
+        ca = rng.sample(fam_pool[fam][2:-2], 6)
+        idx = (lambda a: a - 512 + 1024) if pcs else (lambda a: a)
+        unsup = sorted({idx(a) + d for a in ca for d in (-1, 1)} - {idx(a) for a in ca})
+        add(ca, range(6), pcs, "frequency map without the neighbours of the selected channels", unsup=unsup)
     # PCS cell whose allocation reaches above 810: those channels stay DCS numbers (no flag)
     add([805, 808, 810, 811, 812, 885], range(6), 1, "PCS cell, ARFCNs above 810")
     # --- outside the domain of the chain theorems (compared with the model, not judged) ------------------------------
